@@ -1051,6 +1051,12 @@ int dsh(opt_t * opt)
     /* install signal handlers */
     _xsignal(SIGALRM, _alarm_handler);
 
+    /*
+     *  An ignored SIGCHLD is inherited across exec: the kernel would reap
+     *   our children and waitpid() could not return their status.
+     */
+    _xsignal(SIGCHLD, SIG_DFL);
+
     if (opt->sigint_terminates)
         sigint_terminates = 1;
 
